@@ -34,15 +34,44 @@ def check(cx):
         good = any(any(op_local({"c": x.dst}) in f.dep_closure(op_local(q.args[1])) for x in xmin_c) for q in aborted_q)
         cx.verdict(good, r1, "creator-fate", f.where(), "xmin is passed to a Snapshot status query",
                    "vacuum no longer asks whether the creating transaction aborted")
-        # deleter test: the xmax/is_deleted result must feed a status query, not the branch directly
-        direct = []
-        for x in xmax_c:
-            res = op_local({"c": x.dst})
-            fed = any(res in f.dep_closure(op_local(q.args[1])) for q in aborted_q if len(q.args) > 1)
-            if not fed:
-                direct.append(x)
-        cx.verdict(not direct and bool(xmax_c), r1, "deleter-fate", (direct or xmax_c or [f.calls()[0]])[0].where(),
-                   "the deleter's id is passed to a Snapshot status query",
+        # deleter test: some status query is applied to the tuple's xmax (directly, or inside a closure handed to
+        # Option::is_some_and/map/filter on the xmax() result) and its outcome decides whether the tuple is queued for removal
+        status_fns = {SNAP + "::is_transaction_aborted", SNAP + "::is_committed_before_snapshot"}
+        xmax_get = [c for c in f.calls() if c.callee == "storage::tuple::Tuple::xmax"]
+        R = set()
+        for q in aborted_q:
+            if len(q.args) > 1 and any(op_local({"c": x.dst}) in (f.dep_closure(op_local(q.args[1])) | {op_local(q.args[1])}) for x in xmax_get):
+                R.add(op_local({"c": q.dst}))
+        for c in f.calls():
+            if c.callee.rsplit("::", 1)[-1] in ("is_some_and", "map", "filter", "map_or", "is_none_or") and c.args:
+                recv = op_local(c.args[0])
+                if recv is None or not any(op_local({"c": x.dst}) in (f.dep_closure(recv) | {recv}) for x in xmax_get):
+                    continue
+                for t in p.targets(c):
+                    g = p.fns.get(t)
+                    if g is not None and g.kind == "closure" and any(cc.callee in status_fns for cc in g.calls()):
+                        R.add(op_local({"c": c.dst}))
+        removal = [c for c in f.calls() if c.callee.endswith("Vec::<T, A>::push") and any(
+            isinstance(pe, str) and "tuples_to_remove" in pe for b in f.blocks for s in b["stmts"]
+            if s["dst"] == [op_local(c.args[0])] for pe in (s["rv"].get("p") or [])[1:])]
+        if not removal:
+            # the captured vector is reached through the closure environment: take the first push as removal
+            pushes = [c for c in f.calls() if c.callee.endswith("Vec::<T, A>::push")]
+            removal = pushes[:1]
+        decides = False
+        for bi, b in enumerate(f.blocks):
+            t = b["term"]
+            if t["t"] != "switch":
+                continue
+            dl = op_local(t["o"])
+            if dl is None or not (R & (f.dep_closure(dl) | {dl})):
+                continue
+            arms = set([x[1] for x in t["targets"]] + [t["otherwise"]])
+            reach = {a: any(r.bb in f.reachable_threaded(a) for r in removal) for a in arms}
+            if len(set(reach.values())) == 2:
+                decides = True
+        cx.verdict(bool(R) and decides, r1, "deleter-fate", (xmax_c or f.calls())[0].where(),
+                   "the deleter's status (aborted?) is queried and decides whether the tuple is removed",
                    "a tuple is removed because an xmax is present, without asking whether the deleting transaction "
                    "committed: a row whose DELETE was rolled back is physically removed by VACUUM (D7)")
 
